@@ -43,3 +43,39 @@ def last_adopted_iterate(trials, adopted):
         if a:
             it = tr.it_out
     return it
+
+
+def dense_newton_step(ri, X0, Y0, dt, rho, tau=None):
+    """Dense reference for one semismooth Newton step of F(.; z0, dt, rho) taken *at* z0
+    (internal coordinates, reference model ``ri``).  Returns (Xn, Yn, cond, |s|_inf) or None when the
+    active set is on a knife edge or the Newton matrix is too ill-conditioned to compare."""
+    n_int = ri.N
+    m = ri.ref.m
+    lb, ub = ri.var_lb, ri.var_ub
+    dxL = ri.aug_lag_dx(X0, Y0, rho)
+    p = X0 - dt * dxL
+    if tau is None:
+        q = p
+    else:
+        # explicit tau: the active set is taken at (1 - tau*lamb) x + tau*lamb x0 - tau grad = x0 - tau grad here
+        q = X0 - tau * dxL
+    if np.any(np.abs(q - lb) <= 1e-6 * (1 + np.abs(q))) or np.any(np.abs(q - ub) <= 1e-6 * (1 + np.abs(q))):
+        return None
+    act = (q < lb) | (q > ub)
+    proj = p.copy()
+    proj[act] = np.minimum(np.maximum(p[act], lb[act]), ub[act])
+    c = ri.cons(X0)
+    F = np.concatenate([X0 - proj, Y0 - (Y0 + dt * c)])
+    Hxx = ri.aug_lag_dxx(X0, Y0, rho)
+    J = ri.jac(X0)
+    inact = (~act).astype(float)
+    Fp = np.block([[np.eye(n_int) + inact[:, None] * (dt * Hxx), inact[:, None] * (dt * J.T)], [-dt * J, np.eye(m)]])
+    if not np.all(np.isfinite(Fp)):
+        return None
+    sv = np.linalg.svd(Fp, compute_uv=False)
+    if sv[-1] <= 0 or sv[0] / sv[-1] > 1e6:
+        return None
+    s = np.linalg.solve(Fp, F)
+    Xn = np.minimum(np.maximum(X0 - s[:n_int], lb), ub)
+    Yn = Y0 - s[n_int:]
+    return Xn, Yn, float(sv[0] / sv[-1]), float(np.max(np.abs(s), initial=0.0))
